@@ -101,17 +101,17 @@ Lemma zlen_FFS3 : zlen FFS3 = 16. Proof. reflexivity. Qed.
 
 Lemma asm_vol_ok pol ffs3 h vb kids' :
   zlen vb = v_length h -> 64 <= v_length h -> 0 <= v_hdrlen h ->
-  (kids' <> [] -> 0 <= v_dataoff h <= zlen vb) ->
+  0 <= v_dataoff h ->
   Forall (fun f => 0 < zlen (node_buf f)) kids' ->
   okres (asm_vol pol ffs3 h vb kids') (fun r => v_resizable h = false -> zlen (snd r) = zlen vb).
 Proof.
   intros ZV L64 H0 DO FP. unfold asm_vol.
-  destruct kids' as [|k ks]; [cbn; auto|].
-  assert (DO' : 0 <= v_dataoff h <= zlen vb) by (apply DO; discriminate). clear DO.
-  set (files := k :: ks) in *.
+  destruct (_ && _); [cbn; auto|].
   destruct (v_length h <? zlen vb); [exact I|].
   destruct (v_blocks h) as [|[c0 s0] rest] eqn:VB; [exact I|].
   destruct (v_dataoff h <? v_hdrlen h) eqn:DH; [exact I|].
+  destruct (zlen vb <? v_dataoff h) eqn:DB; [exact I|].
+  assert (DO' : 0 <= v_dataoff h <= zlen vb) by lia.
   eapply okres_bind with (P := fun hdr => hdr = sub 0 (v_dataoff h) vb).
   { rewrite slice_ok by lia. cbn. f_equal. lia. }
   intros hdr ->.
@@ -299,15 +299,13 @@ Proof.
     eapply okres_bind.
     + apply asm_vol_ok; auto.
       * destruct HF as (_ & _ & _ & _ & _ & G6 & _). rewrite G6. apply rd_nonneg, OKb.
-      * intros NE. split.
-        { destruct HF as (_ & _ & _ & _ & _ & G6 & _ & G8 & _ & _ & _ & G12 & G13).
-          rewrite G13.
-          pose proof (rd_nonneg 48 2 b OKb). pose proof (rd_nonneg 52 2 b OKb).
-          assert (0 <= v_extsize h).
-          { rewrite G12. destruct (vol_has_ext h); [apply rd_nonneg; auto|lia]. }
-          match goal with |- 0 <= align8 ?x => pose proof (align8_bounds x) end.
-          destruct (vol_has_ext h); lia. }
-        { apply DO. intros ->. inversion F2. subst. congruence. }
+      * destruct HF as (_ & _ & _ & _ & _ & G6 & _ & G8 & _ & _ & _ & G12 & G13).
+        rewrite G13.
+        pose proof (rd_nonneg 48 2 b OKb). pose proof (rd_nonneg 52 2 b OKb).
+        assert (0 <= v_extsize h).
+        { rewrite G12. destruct (vol_has_ext h); [apply rd_nonneg; auto|lia]. }
+        match goal with |- 0 <= align8 ?x => pose proof (align8_bounds x) end.
+        destruct (vol_has_ext h); lia.
       * eapply files_pos_after; eauto.
     + intros [h' nb] R. cbn in *. exact R.
   - intros o b _ st. cbn. reflexivity.
